@@ -437,13 +437,15 @@ def run(chk):
             s = with_spaces(rng, "".join(render_item(it) for it in items))
         else:
             s = "".join(rng.choice(alphabet) for _ in range(rng.randrange(0, 9)))
-        ts = rng.choice([1, 2, 5, 1.0, 0.5, 10])
+        ts = rng.choice([1, 2, 5, 1.0, 0.5, 10, 0, 0.0])     # 0: every marble at the shift itself
         lookup = rand_lookup()
         hist["delivery"] += 1
         doc = scan_documented(s)
         for api, kind, runner in (("from_marbles", 1, lambda: run_cold(s, ts, lookup, "from_marbles")),
                                   ("testing.cold", 1, lambda: run_cold(s, ts, lookup, "testing")),
                                   ("testing.hot", 2, lambda: run_hot(s, ts, lookup))):
+            if api == "testing.hot" and not ts:
+                continue        # every marble AT the subscription instant of a hot observable: not delivered, by design
             res, problems = runner()
             chk.cov["evaluations"] += 1
             gal.append((gcase(kind, True, ts, 200.0, lookup, s, objs), gresult(res, objs)))
